@@ -881,7 +881,42 @@ ORDER = ["se_mid", "se_replace", "se_append",
          "sd_isolated", "sd_problem",
          "surf_enter_clears", "surf_exit_dim", "vol_enter_clears", "vol_exit_dim",
          "cf_skip", "cf_bary", "cf_replace", "cf_cells",
-         "fc_skip", "fc_bary", "fc_adjacent", "fc_range", "fc_skip_i", "fc_set", "fc_keep", "fc_app", "fc_replace", "fc_faces"]
+         "fc_skip", "fc_bary", "fc_adjacent", "fc_range", "fc_skip_i", "fc_set", "fc_keep", "fc_app", "fc_replace", "fc_faces",
+         "pe_drop_repeated"]
+
+REL_MD = "mouette/mesh/mesh_data.py"
+
+
+def tr_prepare_edges(D, parts):
+    """RawMeshData._prepare_edges (run by prepare() on exit of every editing block): does it drop an edge whose keyified pair
+    was already declared?  Two source shapes are accepted (the same two as the C02 translator); anything else fails closed.
+    Only this flag is generated; the rest of the function is mirrored by hand in Model.prepare_edges."""
+    src, tree = T.load(REL_MD)
+    pe = T.find_def(tree, "RawMeshData._prepare_edges", REL_MD)
+    parts.append(("RawMeshData._prepare_edges", T.sha(src, pe)))
+    b = T.body_nodoc(pe)
+    dedupe = False
+    if len(b) == 7 and [ast.unparse(x) for x in b[2:4]] == ["seen = set()", "keep = []"]:
+        lp = b[4]
+        if not (isinstance(lp, ast.For) and ast.unparse(lp.iter) == "self.edges" and ast.unparse(lp.target) == "(a, b)"
+                and [ast.unparse(x) for x in lp.body] == ["key = utils.keyify(int(a), int(b))",
+                                                          "keep.append(is_valid(a, b) and key not in seen)",
+                                                          "if keep[-1]:\n    seen.add(key)"]
+                and ast.unparse(b[5]) == "edges_invalid = not all(keep)"):
+            raise TranslationError("%s: _prepare_edges: the keep-flag loop has an unexpected shape" % REL_MD)
+        dedupe = True
+        b = [b[0], b[1], None, b[6]]
+    elif not (len(b) == 4 and ast.unparse(b[2]) == "edges_invalid = any((not is_valid(a, b) for a, b in self.edges))"):
+        raise TranslationError("%s: _prepare_edges: unexpected structure" % REL_MD)
+    if not (len(b) == 4 and ast.unparse(b[0]) == "N = len(self.vertices)" and isinstance(b[1], ast.FunctionDef)
+            and b[1].name == "is_valid" and isinstance(b[3], ast.If) and ast.unparse(b[3].test) == "edges_invalid"):
+        raise TranslationError("%s: _prepare_edges: unexpected structure" % REL_MD)
+    # the rebuild loop keeps exactly the flagged edges
+    loop_src = ast.unparse(b[3])
+    want = "if keep[ie]:" if dedupe else "if is_valid(a, b):"
+    if want not in loop_src:
+        raise TranslationError("%s: _prepare_edges: the rebuild loop does not keep `%s`" % (REL_MD, want))
+    D["pe_drop_repeated"] = (": bool", "true" if dedupe else "false")
 
 
 def gen():
@@ -906,6 +941,7 @@ def gen():
         raise
     except Exception as ex:
         raise TranslationError("%s: editing block: cannot be translated (%r)" % (REL, ex))
+    tr_prepare_edges(D, parts)
     for q in ["split_edge", "SurfaceSubdivision", "split_double_boundary_edges_triangles", "VolumeSubdivision"]:
         parts.append((q, T.sha(src, T.find_def(tree, q, REL))))
     missing = [k for k in ORDER if k not in D]
